@@ -44,6 +44,12 @@ type peer struct {
 	release   chan struct{} // closed at the end of the scenario: stalled handlers leave
 	sid       string
 	armed     string // "" | close | reset: what happens to every connection from now on, right at accept (before the request is read)
+	// hs: how the peer treats the handshake ("" = it succeeds): endpointStall (legacy: the stream is up, no endpoint event) |
+	// postStall (legacy: initialize accepted with 202, never answered) | postHold (the initialize POST is never responded to; the
+	// script may answer it later through initHeld) | postReset | http500 | errorReply | garbage | initializedRefused
+	hs       string
+	initHeld chan *arrival // postHold: the initialize request (its hijacked connection)
+	initID   json.RawMessage
 }
 
 // faultyListener ends new connections at accept once the peer is armed.
@@ -89,7 +95,7 @@ func newPeer(legacy bool) *peer {
 	if err != nil {
 		panic(err)
 	}
-	p := &peer{ln: ln, legacy: legacy, postMode: "ok", conns: map[net.Conn]bool{}, connState: map[net.Conn]http.ConnState{}, arrivals: make(chan *arrival, 64), gets: make(chan time.Time, 8),
+	p := &peer{ln: ln, legacy: legacy, postMode: "ok", conns: map[net.Conn]bool{}, connState: map[net.Conn]http.ConnState{}, arrivals: make(chan *arrival, 64), gets: make(chan time.Time, 8), initHeld: make(chan *arrival, 4),
 		streamUp: make(chan struct{}), release: make(chan struct{}), sid: "verif-session"}
 	mux := http.NewServeMux()
 	if legacy {
@@ -180,10 +186,42 @@ func (p *peer) streamable(w http.ResponseWriter, r *http.Request) {
 	_ = json.Unmarshal(b, &m)
 	switch {
 	case m.Method == "initialize":
+		p.mu.Lock()
+		p.initID = m.ID
+		p.mu.Unlock()
+		switch p.hs {
+		case "postHold":
+			c, bw := p.hijack(w)
+			p.initHeld <- &arrival{id: m.ID, conn: c, bw: bw, at: time.Now()}
+			return
+		case "postReset":
+			c, _ := p.hijack(w)
+			endConn(c, "reset")
+			return
+		case "http500":
+			http.Error(w, "injected", http.StatusInternalServerError)
+			return
+		}
 		w.Header().Set("Content-Type", "application/json")
 		w.Header().Set("Mcp-Session-Id", p.sid)
-		fmt.Fprintf(w, `{"jsonrpc":"2.0","id":%s,"result":%s}`, string(m.ID), initResult)
+		switch p.hs {
+		case "errorReply":
+			fmt.Fprintf(w, `{"jsonrpc":"2.0","id":%s,"error":{"code":-32603,"message":"injected"}}`, string(m.ID))
+		case "garbage":
+			fmt.Fprintf(w, `{"jsonrpc":"2.0","id":%s,"result":"garbage"}`, string(m.ID))
+		default:
+			fmt.Fprintf(w, `{"jsonrpc":"2.0","id":%s,"result":%s}`, string(m.ID), initResult)
+		}
 	case len(m.ID) == 0:
+		if p.hs == "initializedRefused" {
+			http.Error(w, "injected", http.StatusInternalServerError)
+			return
+		}
+		if p.hs == "initializedReset" {
+			c, _ := p.hijack(w)
+			endConn(c, "reset")
+			return
+		}
 		w.WriteHeader(http.StatusAccepted)
 	default:
 		c, bw := p.hijack(w)
@@ -207,7 +245,9 @@ func (p *peer) legacyStream(w http.ResponseWriter, r *http.Request) {
 	p.stream = c // before the endpoint event: the client posts as soon as it has the endpoint
 	p.mu.Unlock()
 	io.WriteString(c, "HTTP/1.1 200 OK\r\nContent-Type: text/event-stream\r\nCache-Control: no-cache\r\n\r\n")
-	io.WriteString(c, "event: endpoint\ndata: /message?sessionId="+p.sid+"\n\n")
+	if p.hs != "endpointStall" {
+		io.WriteString(c, "event: endpoint\ndata: /message?sessionId="+p.sid+"\n\n")
+	}
 	close(p.streamUp)
 }
 
@@ -217,12 +257,46 @@ func (p *peer) legacyPost(w http.ResponseWriter, r *http.Request) {
 	_ = json.Unmarshal(b, &m)
 	switch {
 	case m.Method == "initialize":
+		p.mu.Lock()
+		p.initID = m.ID
+		p.mu.Unlock()
+		switch p.hs {
+		case "postHold":
+			c, bw := p.hijack(w)
+			p.initHeld <- &arrival{id: m.ID, conn: c, bw: bw, at: time.Now()}
+			return
+		case "postReset":
+			c, _ := p.hijack(w)
+			endConn(c, "reset")
+			return
+		case "http500":
+			http.Error(w, "injected", http.StatusInternalServerError)
+			return
+		}
 		w.WriteHeader(http.StatusAccepted)
 		p.mu.Lock()
 		s := p.stream
 		p.mu.Unlock()
-		fmt.Fprintf(s, "event: message\ndata: {\"jsonrpc\":\"2.0\",\"id\":%s,\"result\":%s}\n\n", string(m.ID), initResult)
+		switch p.hs {
+		case "postStall":
+			// accepted, never answered on the stream
+		case "errorReply":
+			fmt.Fprintf(s, "event: message\ndata: {\"jsonrpc\":\"2.0\",\"id\":%s,\"error\":{\"code\":-32603,\"message\":\"injected\"}}\n\n", string(m.ID))
+		case "garbage":
+			fmt.Fprintf(s, "event: message\ndata: {\"jsonrpc\":\"2.0\",\"id\":%s,\"result\":\"garbage\"}\n\n", string(m.ID))
+		default:
+			fmt.Fprintf(s, "event: message\ndata: {\"jsonrpc\":\"2.0\",\"id\":%s,\"result\":%s}\n\n", string(m.ID), initResult)
+		}
 	case len(m.ID) == 0:
+		if p.hs == "initializedRefused" {
+			http.Error(w, "injected", http.StatusInternalServerError)
+			return
+		}
+		if p.hs == "initializedReset" {
+			c, _ := p.hijack(w)
+			endConn(c, "reset")
+			return
+		}
 		w.WriteHeader(http.StatusAccepted)
 	default:
 		a := &arrival{id: m.ID, nonce: m.Params.Arguments.Nonce, at: time.Now()}
@@ -337,6 +411,35 @@ func endConn(c net.Conn, kind string) {
 	case "close":
 		c.Close()
 	}
+}
+
+// streamsOpen: how many of the event streams the peer has handed out (the legacy GET /sse stream, the Streamable listening
+// streams) are still open as seen from the peer: a read that runs into its deadline instead of the client's FIN / RST.
+func (p *peer) streamsOpen(wait time.Duration) int {
+	p.mu.Lock()
+	var cs []net.Conn
+	if p.stream != nil {
+		cs = append(cs, p.stream)
+	}
+	cs = append(cs, p.getConns...)
+	p.mu.Unlock()
+	open := 0
+	dl := time.Now().Add(wait)
+	buf := make([]byte, 512)
+	for _, c := range cs {
+		for {
+			c.SetReadDeadline(dl)
+			_, err := c.Read(buf)
+			if err == nil {
+				continue // bytes of the client (there are none to expect); keep reading
+			}
+			if ne, ok := err.(net.Error); ok && ne.Timeout() {
+				open++
+			}
+			break
+		}
+	}
+	return open
 }
 
 // ---- a peer that lingers: the stream is kept open after the final answer frame
